@@ -20,9 +20,14 @@ impl HasKey<Public> for V1 {
     type Key = PublicKey;
 
     fn decode(bytes: &[u8]) -> Result<PublicKey, PasetoError> {
-        use rsa::pkcs8::spki::DecodePublicKey;
+        use rsa::pkcs8::spki::{DecodePublicKey, EncodePublicKey};
 
         let key = if let Ok(key) = rsa::RsaPublicKey::from_public_key_der(bytes) {
+            // only the canonical DER encoding is accepted, so that one key has one PASERK string
+            let der = key.to_public_key_der();
+            if !der.is_ok_and(|der| der.as_bytes() == bytes) {
+                return Err(PasetoError::InvalidKey);
+            }
             key
         } else {
             let s = str::from_utf8(bytes).map_err(|_| PasetoError::InvalidKey)?;
@@ -51,9 +56,14 @@ impl HasKey<paseto_core::version::Secret> for V1 {
     type Key = SecretKey;
 
     fn decode(bytes: &[u8]) -> Result<SecretKey, PasetoError> {
-        use rsa::pkcs1::DecodeRsaPrivateKey;
+        use rsa::pkcs1::{DecodeRsaPrivateKey, EncodeRsaPrivateKey};
 
         let key = if let Ok(key) = rsa::RsaPrivateKey::from_pkcs1_der(bytes) {
+            // only the canonical DER encoding is accepted, so that one key has one PASERK string
+            let der = key.to_pkcs1_der();
+            if !der.is_ok_and(|der| der.as_bytes() == bytes) {
+                return Err(PasetoError::InvalidKey);
+            }
             key
         } else {
             let s = str::from_utf8(bytes).map_err(|_| PasetoError::InvalidKey)?;
